@@ -2,6 +2,8 @@ import OtelVerif.Model.C04
 import OtelVerif.Lemmas.C04Term
 import OtelVerif.Lemmas.C04Pinned
 import OtelVerif.Lemmas.C04Bound
+import OtelVerif.Lemmas.C04BoundBytes
+import OtelVerif.Lemmas.C04BoundMetrics
 import OtelVerif.Lemmas.C04Done
 import OtelVerif.Lemmas.C04Cover
 /-!
@@ -232,6 +234,28 @@ theorem C04_bound_items (max : Int) (hmax : 0 < max) (r1 : Req (List Res)) (r2 :
     ∀ r ∈ out, payloadSize ⟨false⟩ r.p ≤ max ∨ heavy r.p ≤ 1 :=
   mergeSplit_bound _ heavy (logs_sizeExact _) logs_bounded max hmax r1 r2 out h h1 h2
 
+/-- **size bound, bytes sizer** (logs, traces, profiles): with `max_size > 0`, every request `MergeSplit` returns has an
+encoded size (`DeltaSize n = 1 + n + sov n`, `sov` = varint length, leaf and own-field sizes as measured) of at most
+`max_size`, unless it holds at most one item that weighs anything — the single indivisible item that alone (with its resource
+and scope) exceeds `max_size`.  The per-level budget `capacity - (DeltaSize(capacity) - capacity) - size(own fields)` is what
+makes a fragment fit once its own length prefix is added (`frag_fits`, monotonicity of the varint length). -/
+theorem C04_bound_bytes (max : Int) (hmax : 0 < max) (r1 : Req (List Res)) (r2 : Option (Req (List Res)))
+    (out : List (Req (List Res))) (h : mergeSplit (logsOps ⟨true⟩) max r1 r2 = some out)
+    (h1 : r1.exact (logsOps ⟨true⟩)) (h2 : ∀ r, r2 = some r → r.exact (logsOps ⟨true⟩)) :
+    ∀ r ∈ out, payloadSize ⟨true⟩ r.p ≤ max ∨ heavyS ⟨true⟩ r.p ≤ 1 :=
+  mergeSplit_bound _ (heavyS ⟨true⟩) (logs_sizeExact _) logs_bounded_bytes max hmax r1 r2 out h h1 h2
+
+/-- **size bound, metrics, items sizer** (either fragment construction, i.e. also the code in /repo): with `max_size > 0`
+every request `MergeSplit` returns has at most `max_size` data points, or at most one.
+Metrics with the BYTES sizer: for the construction in /repo (`metricFragmentKeepsIdentity = false`) the bound is FALSE (open
+finding `C04/mergesplit/batch-exceeds-max/metrics-bytes-empty-fragment`: the unaccounted empty fragment); for the repaired
+construction it is not proved (the accounting of a metric cut in two is an upper bound, `cached ≥ size`): `bound` oracle. -/
+theorem C04_bound_metrics_items (keep : Bool) (max : Int) (hmax : 0 < max) (r1 : Req (List MRes)) (r2 : Option (Req (List MRes)))
+    (out : List (Req (List MRes))) (h : mergeSplit (metricsOps keep ⟨false⟩) max r1 r2 = some out)
+    (h1 : r1.exact (metricsOps keep ⟨false⟩)) (h2 : ∀ r, r2 = some r → r.exact (metricsOps keep ⟨false⟩)) :
+    ∀ r ∈ out, mpayloadSize ⟨false⟩ r.p ≤ max ∨ (mflatten r.p).length ≤ 1 :=
+  mergeSplit_bound _ heavyM (metrics_sizeExact keep) (metrics_bounded keep) max hmax r1 r2 out h h1 h2
+
 /-- non-vacuity: 2 + 5 + 1 samples, max 3: the 5-sample profile leaves alone (over max, one item), everything else fits -/
 example :
     (mergeSplit (logsOps ⟨false⟩) 3 { p := [⟨⟨1, 0, 0⟩, [⟨⟨2, 0, 0, 0, 0⟩, [⟨10, 0, 2⟩, ⟨11, 0, 5⟩, ⟨12, 0, 1⟩]⟩]⟩] } none).map
@@ -331,6 +355,29 @@ theorem C04_done_covers_all_parts (c : BCfg) (hv : c.max = 0 ∨ c.min ≤ c.max
   obtain ⟨d, hd, hdt⟩ := hcov.1 b hb u hu hp
   have := (C04_done_once c ls hnd).2.2.1 id hf d (slots_dones_mem _ b hb d hd)
   exact this (by rw [hdt, hid])
+
+theorem vinv_init : VInv {} := by intro b hb; simp [BState.slots] at hb
+
+/-- **a Done is handed ONLY to batches that contain part of its request** (the converse of `C04_done_covers_all_parts`, the
+`cf54b5c52` side): for every history whose requests carry at least one unit (a request without items = one unit of size 0),
+all tagged with their id, every `Done` a pending or in-flight batch holds belongs to a request with a unit in that batch —
+so no batch's outcome is ever reported to a request none of whose data it carried.
+
+Together: `C04_done_once` (fires exactly once, after the last batch holding one of its Dones, for every history),
+`C04_done_covers_all_parts` (every batch containing part of r holds a Done of r), this theorem (only those do) and
+`C04_done_combines_errors` (the ref-count reports the union of the outcomes it was fed) give the property's clause: the
+callback of r fires exactly once, only after every batch containing part of r has finished, and reports an error iff
+one of those batches failed. -/
+theorem C04_done_only_own_parts (c : BCfg) (hv : c.max = 0 ∨ c.min ≤ c.max) (ls : List BLabel)
+    (hnd : (consumedIds ls).Nodup) (ht : TaggedNE ls) :
+    ∀ b ∈ (brun c {} ls).1.slots, ∀ d ∈ b.2, ∀ id, tgt (brun c {} ls).1.refs d = some id → ∃ u ∈ b.1, u.1 = id :=
+  brun_conv c hv ls {} [] [] sinv_init (cinv_init c) vinv_init ht hnd (by simp)
+
+/-- non-vacuity (the cf54b5c52 shape): min 10, max 12; 4 bytes parked; the next request's first unit (13) does not fit:
+the first result holds only request 1's data and only request 1's Done -/
+example :
+    ((brun ⟨10, 12⟩ {} [.consume 1 [(1, 4)], .consume 2 [(2, 13), (2, 2)]]).1.slots.map
+      (fun b => ((b.1.map (·.1)).eraseDups, b.2))) = [([2], [.ref 0]), ([1], [.base 1]), ([2], [.ref 0])] := by decide
 
 /-- non-vacuity (the round-2 seed shape): min 5, max 10, 4 items parked, 16 more → two full batches 10 + 10; the first holds
 items of BOTH requests and both `Done`s (request 2's through a ref-count of 2), so request 2 waits for it -/
